@@ -95,6 +95,7 @@ class SharedJoin(MVPN):
         return (
             isinstance(other, SharedJoin)
             and self.CODE == other.CODE
+            and self.afi == other.afi
             and self.rd == other.rd
             and self.source == other.source
             and self.group == other.group
